@@ -8,7 +8,8 @@ MASK_FL, MASK_RECV, MASK_DELEV, MASK_DISABLED, MASK_FROZEN = 2, 16, 32, 1, 64
 U64_MAX = (1 << 64) - 1
 
 # ------------------------------------------------------------------------------------------------
-# level A: instruction kinds (program code, discriminator symbol or number, data length, account0 code)
+# level A: instruction kinds (program code, discriminator symbol or number, data length, account code:
+# 0 = no accounts, c < 100 = [c], c >= 100 = [c % 100, c // 100])
 KINDS = {
     "cb": (0, "2", 5, 0), "cb9": (0, "SL", 9, 0),
     "SL1": (1, "SL", 8, 1), "SL2": (1, "SL", 8, 2), "SL1x": (1, "SL", 9, 1), "SL2x": (1, "SL", 12, 2), "EL2x": (1, "EL", 9, 2), "EL1": (1, "EL", 8, 1), "EL2": (1, "EL", 8, 2),
@@ -16,6 +17,7 @@ KINDS = {
     "WD": (1, "WD", 17, 7), "RP": (1, "RP", 17, 7), "IR": (1, "IR", 8, 1), "KW": (1, "KW", 16, 7), "DW": (1, "DW", 16, 7),
     "BR": (1, "BR", 16, 7), "DP": (1, "DP", 17, 7), "LQ": (1, "LQ", 18, 7), "SE": (1, "SE", 8, 1), "SW": (1, "SW", 16, 7),
     "SF1": (1, "SF", 16, 1), "SF2": (1, "SF", 16, 2), "EF1": (1, "EF", 8, 1), "EF2": (1, "EF", 8, 2), "EF0": (1, "EF", 8, 0),
+    "EF21": (1, "EF", 8, 102), "EF12": (1, "EF", 8, 201),      # two accounts: [2, 1] (other account first) and [1, 2]
     "EFs": (1, "EF", 7, 1), "ms3": (1, "SL", 3, 1), "ms0": (1, "0", 0, 0), "munk": (1, "12345", 8, 1),
     "krr": (2, "KRR", 8, 0), "kro": (2, "KRO", 8, 0), "kx": (2, "777", 8, 0), "ks": (2, "KRR", 4, 0),
     "dus": (3, "DUS", 8, 0), "dx": (3, "888", 16, 0),
@@ -35,6 +37,7 @@ ALPHABETS = {
     "fl": ["cb", "SF1", "EF1", "EF2", "BR", "jupEF", "frnEF", "EF0", "EFs"],
     "small": ["cb", "SL1", "EL1", "WD"],
     "small_fl": ["SF1", "EF1", "BR", "jup"],
+    "fl_accts": ["SF1", "EF1", "EF21", "EF12", "EF2", "BR"],
 }
 VAL_CFGS = [
     "1 SL EL 4 2 KRR 2 KRO 1 IR 3 DUS 7 SL EL IR WD RP KW DW",
@@ -44,6 +47,10 @@ VAL_CFGS = [
     "1 EF EF 1 1 SF 3 SF EF BR",
 ]
 VAL_FLAGS = [0, 0, 0, 1, 2, 16, 64, 18, 4, 8, 32, 127]
+
+
+def first_acct(code):
+    return code % 100 if code >= 100 else code
 
 
 def val_line(rng, kinds):
@@ -81,7 +88,7 @@ def val_sampled(rng, count, lo, hi):
         elif r < 0.8:   # flash-loan shaped
             pre = [rng.choice(["cb", "jup", "DP"]) for _ in range(rng.randrange(0, 3))]
             mid = [rng.choice(["BR", "WD", "RP", "DP", "jup", "sys", "tok", "cb"]) for _ in range(max(0, n - len(pre) - 2))]
-            ks = pre + ["SF1"] + mid + [rng.choice(["EF1", "EF1", "EF1", "EF2", "EF0", "EFs", "jupEF", "frnEF"])]
+            ks = pre + ["SF1"] + mid + [rng.choice(["EF1", "EF1", "EF1", "EF2", "EF0", "EFs", "jupEF", "frnEF", "EF21", "EF12"])]
             if rng.random() < 0.3:
                 ks.insert(rng.randrange(0, len(ks) + 1), rng.choice(names))
         else:
@@ -181,8 +188,8 @@ def sym_of_ix(tok):
         return (int(t[1]), t[2], int(t[3]), 0)
     if k == "PX":
         return (int(t[1]), "PROXY", 48, 0)
-    acct0 = int(t[1]) if k in ("SL", "EL", "SD", "ED", "SF", "EF", "IR") else 7
-    return (1, k, 8, acct0)
+    acct0 = int(t[1]) if k in ("SL", "EL", "SD", "ED", "SF", "EF", "EFX", "IR") else 7
+    return (1, "EF" if k == "EFX" else k, 8, acct0)
 
 
 def parse_sim(case, impl):
@@ -313,8 +320,12 @@ def fl_tx(rng):
     q = rng.random()
     if q < 0.75:
         tail = ["EF %d %d" % (a, s)]
-    elif q < 0.82:
+    elif q < 0.80:
         tail = ["EF %d %d" % (rng.choice([2, 3]), rng.choice([12, 13]))]
+    elif q < 0.82:
+        # the end instruction of ANOTHER account that lists this one among its trailing accounts / the right end with a passenger
+        o2 = 2 if a != 2 else 3
+        tail = [rng.choice(["EFX %d %d %d" % (o2, ACCTS[o2], a), "EFX %d %d %d" % (o2, ACCTS[o2], a), "EFX %d %d %d" % (a, s, o2)])]
     elif q < 0.88:
         tail = []
     elif q < 0.92:
